@@ -136,17 +136,42 @@ Proof. split; reflexivity. Qed.
 Example rep_ids : representable (EdBeatmapId 662518) m0 = true /\ representable (EdBeatmapId 0) m0 = false /\
                   representable (EdCountdownOffset 0) m0 = true /\ representable (EdCountdownOffset (-2)) m0 = false.
 Proof. repeat split; reflexivity. Qed.
-(* breaks: the end is read as max(start, end) *)
+(* breaks: the plain order condition -- the end does not lie before the start *)
 Example rep_breaks :
   representable (EdBreaks [mkBreak (D.of_Z 100) (D.of_Z 900)]) m0 = true /\
+  representable (EdBreaks [mkBreak (D.of_Z 100) (D.of_Z 100)]) m0 = true /\
   representable (EdBreaks [mkBreak (D.of_Z 900) (D.of_Z 100)]) m0 = false.
-Proof. split; vm_compute; reflexivity. Qed.
-(* D24 (known finding): start <= end is not enough -- a break from -0.0 to +0.0 is read back
-   with end -0.0 (f64::max returns its first operand on a tie); it is not representable *)
-Example rep_break_zero_signs :
-  D.le (D.neg D.zero) D.zero = true /\
-  representable (EdBreaks [mkBreak (D.neg D.zero) D.zero]) m0 = false.
-Proof. split; vm_compute; reflexivity. Qed.
+Proof. repeat split; vm_compute; reflexivity. Qed.
+Example pin_break_condition :
+  forall b, break_ok b = in_lim64 (bp_start b) && in_lim64 (bp_end b) && negb (D.lt (bp_end b) (bp_start b)).
+Proof. reflexivity. Qed.
+(* D24 (repaired): a break between the two zeros, in either sign order, is representable
+   and survives.  The decoder used to compute the end as start.max(end), which returns the
+   start when the two compare equal, so `2,-0,0` came back with end -0.0 and `2,0,-0` with
+   end +0.0; it now keeps the written end unless it lies before the start.
+   -0.0 has the bit pattern 2^63 = 9223372036854775808. *)
+Definition zero_breaks : list BreakPeriod :=
+  [mkBreak (D.neg D.zero) D.zero; mkBreak D.zero (D.neg D.zero); mkBreak (D.neg D.zero) (D.neg D.zero)].
+Example rep_break_zero_signs : representable (EdBreaks zero_breaks) m0 = true.
+Proof. vm_compute. reflexivity. Qed.
+(* the decoder reads the two lines back bit for bit ... *)
+Example break_zero_lines_read_back :
+  dump_events (run_lines parse_events events_default (map lit ["2,-0,0"; "2,0,-0"]%string))
+  = [0; 2; 9223372036854775808; 0; 0; 9223372036854775808].
+Proof. vm_compute. reflexivity. Qed.
+(* ... and so does the edit, through the encoder, for every number formatting *)
+Example break_zero_edit_survives :
+  forall fmt_f64 fmt_f32 fmt_int, fmt_ok fmt_f64 fmt_f32 fmt_int ->
+  dump_events (run_lines parse_events events_default
+                 (map (render fmt_f64 fmt_f32 fmt_int)
+                      (body (enc_events (hov_events (bmv_ho (apply_edit (EdBreaks zero_breaks) m0)))))))
+  = [0; 3; 9223372036854775808; 0; 0; 9223372036854775808; 9223372036854775808; 9223372036854775808].
+Proof.
+  intros f64 f32 fi Hfmt.
+  destruct (edit_survives f64 f32 fi Hfmt (EdBreaks zero_breaks) m0 m0_ok rep_break_zero_signs)
+    as [(_ & _ & _ & _ & He & _) _].
+  rewrite He. vm_compute. reflexivity.
+Qed.
 (* colours: no alpha channel; a custom colour's name is a key that is not a Combo key *)
 Example rep_colours :
   representable (EdComboColors [mkColor 255 0 128 255]) m0 = true /\
@@ -160,6 +185,6 @@ Proof. repeat split; reflexivity. Qed.
    For the six simple sections the decoder itself never produces a value outside
    [simple_pre] (C04_decode_image_inv: no line break, no surrounding White_Space, no `\`,
    no `,` / surrounding quotes in the background name, numbers within the limits, clamped
-   values in range, breaks with end = max(start, end), alpha 255, distinct non-Combo colour
+   values in range, breaks whose end is not before the start, alpha 255, distinct non-Combo colour
    keys without `:`).  The one exclusion that the decoder CAN produce is "//" inside a
    file name (D23, C04_file_name_misread_refuted). *)
